@@ -1056,7 +1056,18 @@ structure St where
   drainReq : Bool := false
   /-- a thread-local actor: its state is not `Send` and is never reported -/
   isLocal : Bool := false
+  /-- `post_start` returned ok while the actor was supervised: `ActorStarted` is due before anything else -/
+  mustStart : Bool := false
+  /-- the exit request the loop consumed when it entered `post_stop`: the accepted stop (the stop port
+  outranks the mailbox, so a stop accepted before wins over a drain marker), else the drain marker -/
+  took : Option Reason := none
   deriving DecidableEq, Repr, Inhabited
+
+/-- The request that `enter post_stop` consumes, given what was accepted so far. -/
+def tookOf (s : St) : Option Reason :=
+  match s.stopReason with
+  | some r => some r
+  | none => some .drained
 
 /-- Is the terminal event `e` the right one for what the trace shows? -/
 def classify (s : St) : SupEv → Except String Unit
@@ -1073,7 +1084,8 @@ def classify (s : St) : SupEv → Except String Unit
     | r =>
       if !s.postStopOk then .error "c04.terminated-without-post_stop"
       else if hasState == s.isLocal then .error "c04.graceful-state"   -- state iff not thread-local
-      else if s.stopReason = some r || (r = .drained && s.drainReq) then .ok ()
+      -- the reason is the one of the request the loop took (also when both a stop and a drain were requested)
+      else if s.took = some r then .ok ()
       else .error "c04.reason"
 
 def next (me : Nat) (s : St) : Ev → Except String St
@@ -1083,18 +1095,23 @@ def next (me : Nat) (s : St) : Ev → Except String St
     else if s.preFailed then .error "c04.event-after-pre_start-failure"
     else if s.terminalEmitted then .error "c04.after-terminal"
     else if e.isTerminal then
-      match classify s e with
+      if s.mustStart then .error "c04.missing-started"      -- `ActorStarted` was due first
+      else match classify s e with
       | .ok () => .ok { s with terminalEmitted := true }
       | .error c => .error c
     else if s.startedEmitted then .error "c04.started-twice"
     else if !s.startable then .error "c04.started-not-after-post_start"
-    else .ok { s with startedEmitted := true, startable := false }
-  | .enter _ _ => .ok { s with startable := false }
+    else .ok { s with startedEmitted := true, startable := false, mustStart := false }
+  | .enter cb _ =>
+    -- positive form: a supervised actor whose `post_start` returned ok reports `ActorStarted`
+    -- before any further callback
+    if s.mustStart then .error "c04.missing-started"
+    else .ok { s with startable := false, took := if cb = .postStop then tookOf s else s.took }
   | .exit cb r =>
     match cb, r with
     | .preStart, .ok => .ok s
     | .preStart, _ => .ok { s with preFailed := true }
-    | .postStart, .ok => .ok { s with startable := true }
+    | .postStart, .ok => .ok { s with startable := true, mustStart := s.sup.isSome }
     | .postStop, .ok => .ok { s with postStopOk := true }
     | _, .ok => .ok s
     | _, .err n => .ok { s with fail := some (false, n) }
